@@ -73,6 +73,37 @@ WIDENED = {
  "C19-9": "desc: one trust-list buffer refilled call after call",
  "C20-8": "reported by C08 / C16 (first object re-verified after another object signed); C20 gained 'another object signs elsewhere' as an operation afterwards",
  "C20-9": "desc: context cancelled while the signer works",
+
+ # round 4 was run blind against a frozen harness (DESIGN section 8); "blind miss" = not reported then
+ "C01-10": "blind miss (C20 was not in the blind set; its late failure at the timestamp authority from a parsed start is this history)",
+ "C01-12": "blind miss: C13 labels named like the unprotected headers (x5c, signingAgent, timestampSignature)",
+ "C03-10": "blind miss: last certificates whose issuer Name prints like the subject but is another DER (reordered, grouped, other string type)",
+ "C03-11": "blind miss: anyExtendedKeyUsage next to an excluded purpose, in every order",
+ "C04-10": "blind miss: expired / next-update-less Revoked answers whose invalidity date would excuse them",
+ "C04-11": "blind miss: answers whose next-update has passed but lies after the signing time",
+ "C04-12": "blind miss: status Unknown (and Good) carrying an invalidity date",
+ "C05-10": "blind miss: a slow distribution point that answers only after a list's next-update instant",
+ "C05-12": "blind miss: delta CRLs whose thisUpdate is earlier than the base's",
+ "C06-10": "blind miss: distribution points that differ only in the letter case of their path",
+ "C07-10": "blind miss: an upper-case twin of a COSE time label, encoded first, as benign variation",
+ "C07-11": "blind miss: a signing time at which the chain did not exist yet, as benign variation",
+ "C07-12": "blind miss: the other scheme's time header carrying the zero instant",
+ "C08-10": "blind miss: the empty JSON object as payload",
+ "C09-11": "blind miss: CRLs with a revoking base AND a non-empty delta in C09; a panic instead of a verdict is a violation in C04/C05/C06/C10/C11/C12",
+ "C09-12": "blind miss: response bodies that never end",
+ "C12-12": "blind miss (C04, which owns 'answer about another serial', was not in the blind set)",
+ "C13-12": "blind miss: the other scheme's time header as an extra protected header",
+ "C14-12": "blind miss: a certificate that names its issuer in another ASN.1 string type",
+ "C15-10": "blind miss: a caller-written Timestamper and non-grant statuses that carry a token",
+ "C15-11": "blind miss: the library's own revocation validator asking a responder about the TSA leaf",
+ "C16-10": "blind miss: repeated attribute keys whose first value is nil",
+ "C16-12": "blind miss: chains with re-encoded issuer names in C16's defect list",
+ "C17-10": "blind miss: several panics of one call carry values of different dynamic types",
+ "C17-11": "blind miss: cache operations in flight at / begun after return; caches with DiscardCacheError",
+ "C17-12": "blind miss: every CA of every family carries the same subject key identifier",
+ "C20-10": "blind: only C08 reported it; C20's requests now differ in agent / attributes",
+ "C20-11": "blind: only C08 reported it; C20's A and P carry a critical extended attribute",
+ "C20-12": "blind: only C08 reported it; C20's B payload carries exp / nbf / iat members",
 }
 rows = []
 for d in sorted(glob.glob("/verif/seeded/*/meta.json"), key=lambda p: (p.split("/")[-2].split("-")[0], int(p.split("/")[-2].split("-")[1]))):
@@ -82,7 +113,10 @@ for d in sorted(glob.glob("/verif/seeded/*/meta.json"), key=lambda p: (p.split("
     if len(summ) > 210:
         summ = summ[:207] + "..."
     caught = ", ".join(m.get("caught_by", [])) or "**none**"
-    rows.append("| %s | %s | %s | %s |" % (sid, summ.replace("|", "/"), caught, WIDENED.get(sid, "")))
+    note = WIDENED.get(sid, "")
+    if not note and int(sid.split("-")[1]) >= 10:
+        note = "blind: reported by the frozen harness at first contact"
+    rows.append("| %s | %s | %s | %s |" % (sid, summ.replace("|", "/"), caught, note))
 print("| change | what was changed | reported by (quick tier) | workload widened (miss: after a first miss; desc: on reading the description) |")
 print("|---|---|---|---|")
 print("\n".join(rows))
